@@ -55,6 +55,55 @@ pub fn dispatch(toks: &[&str]) -> String {
                 Err(e) => nib_err(&e)
             }
         },
+        "enc35" | "dec35" => {
+            // the data field of sector 0 on a freshly formatted 3.5 inch track: 36 ten-bit sync bytes, address field (10 bytes),
+            // 6 ten-bit sync bytes, data prolog (3), sector nibble (1), then the 703 nibbles
+            let off_bits = 36*10 + 10*8 + 6*10 + 4*8;
+            let (mut bits,mut tb) = a2kit::img::disk35::create_std_track(0,1,10240);
+            let getbit = |bits: &Vec<u8>,i: usize| (bits[i/8] >> (7 - i%8)) & 1;
+            if toks[0]=="enc35" {
+                let dat = unhex(toks[2]);
+                match tb.write_sector(&mut bits,&dat,0,0) {
+                    Ok(()) => {
+                        let mut nibs: Vec<u8> = Vec::new();
+                        for n in 0..703 { let mut v = 0u8; for b in 0..8 { v = v*2 + getbit(&bits,off_bits + n*8 + b); } nibs.push(v); }
+                        tohex(&nibs)
+                    },
+                    Err(e) => nib_err(&e)
+                }
+            } else {
+                let nibs = unhex(toks[2]);
+                for (n,v) in nibs.iter().enumerate().take(703) {
+                    for b in 0..8 { let i = off_bits + n*8 + b; let bit = (v >> (7-b)) & 1; bits[i/8] = (bits[i/8] & !(1 << (7 - i%8))) | (bit << (7 - i%8)); }
+                }
+                tb.reset();
+                match tb.read_sector(&bits,0,0) {
+                    Ok(v) => format!("ok:{}",tohex(&v)),
+                    Err(e) => nib_err(&e)
+                }
+            }
+        },
+        "trk35" => {
+            // trk35 id sides track (sector hex)* : writes through the WOZ2 image, then the packed track buffer
+            let sides = num(toks[2]); let trk = num(toks[3]);
+            let kind = if sides==1 { img::names::A2_400_KIND } else { img::names::A2_800_KIND };
+            let mut disk: Box<dyn DiskImage> = Box::new(img::woz2::Woz2::create(254,kind));
+            let (cyl,head) = if sides==1 { (trk,0) } else { (trk/2,trk%2) };
+            let mut i = 4;
+            while i+1 < toks.len() {
+                let sec = num(toks[i]);
+                let dat = if toks[i+1]=="-" { Vec::new() } else { unhex(toks[i+1]) };
+                if let Err(e) = disk.write_sector(cyl,head,sec,&dat) {
+                    // a sector number that is not on the track is refused; the model leaves the track alone
+                    let _ = e;
+                }
+                i += 2;
+            }
+            match disk.get_track_buf(cyl,head) {
+                Ok(buf) => tohex(&buf),
+                Err(e) => format!("buf-err:{}",e)
+            }
+        },
         "trk" => {
             let is13 = toks[2]=="1";
             let sync = num(toks[3]);
